@@ -89,7 +89,7 @@ pub fn run(run: &Run) {
          prefixes of 7..65 characters; alignment sweeps and runs of marks; (c) proptest strings over assigned code points biased to RTL-relevant classes; through Rules::directionality_rule of \
          both username profiles. Oracle: bidi class from my parse of UnicodeData 16.0.0 + the six RFC 5893 conditions written over the class sequence: \
          Ok(same string) iff no R/AL/AN present or all conditions hold, else Err(Invalid). Non-trivial: label has an R/AL/AN character and >= 2 \
-         characters; distinct = distinct (profile,label). Plus the deterministic long-input / call-order batteries of DESIGN.md 8.1 that apply to this property (alignment sweeps 0..72 and around 128..65536 bytes, runs and exact counts, sandwiches and multi-megabyte inputs, exhaustive pair sets, plane/byte aliases, hash-colliding pairs back to back, owned arguments with spare capacity); each battery is a finite list enumerated completely and appears as its own section in 'sections'.",
+         characters; distinct = distinct (profile,label). Plus the deterministic long-input / call-order batteries of DESIGN.md 8.1 and 8.2 that apply to this property (extreme scale, mark neighbours, distinct runs with repeats, environment children, thread lifetime, concurrent distinct inputs; alignment sweeps 0..72 and around 128..65536 bytes, runs and exact counts, sandwiches and multi-megabyte inputs, exhaustive pair sets, plane/byte aliases, hash-colliding pairs back to back, owned arguments with spare capacity); each battery is a finite list enumerated completely and appears as its own section in 'sections'.",
     );
     run.assume("domain = code points assigned in Unicode 16.0.0 (as the property states); K1 (interior NSM) is a listed known finding matched on: RFC accepts, NSM followed by non-NSM, implementation returns Invalid");
     let profs = [Prof::UserMapped, Prof::UserPreserved];
